@@ -3,7 +3,7 @@
 // This source code is licensed under the MIT license found in the
 // LICENSE file in the root directory of this source tree.
 
-use alloc::vec::Vec;
+use alloc::{string::ToString, vec::Vec};
 use core::cmp;
 
 use fri::FriOptions;
@@ -326,17 +326,59 @@ impl Deserializable for ProofOptions {
     /// # Errors
     /// Returns an error of a valid proof options could not be read from the specified `source`.
     fn read_from<R: ByteReader>(source: &mut R) -> Result<Self, DeserializationError> {
+        let num_queries = source.read_u8()? as usize;
+        let blowup_factor = source.read_u8()? as usize;
+        let grinding_factor = source.read_u8()? as u32;
+        let field_extension = FieldExtension::read_from(source)?;
+        let fri_folding_factor = source.read_u8()? as usize;
+        let fri_remainder_max_degree = source.read_u8()? as usize;
+        let batching_constraints = BatchingMethod::read_from(source)?;
+        let batching_deep = BatchingMethod::read_from(source)?;
+        let num_partitions = source.read_u8()? as usize;
+        let hash_rate = source.read_u8()? as usize;
+
+        // the constructors below panic on invalid parameters; the bytes are untrusted, so validate
+        // them here and report an error instead
+        let invalid = |msg: &str| Err(DeserializationError::InvalidValue(msg.to_string()));
+        if num_queries == 0 || num_queries > MAX_NUM_QUERIES {
+            return invalid("number of queries must be between 1 and 255");
+        }
+        if !blowup_factor.is_power_of_two()
+            || !(MIN_BLOWUP_FACTOR..=MAX_BLOWUP_FACTOR).contains(&blowup_factor)
+        {
+            return invalid("blowup factor must be a power of two between 2 and 128");
+        }
+        if grinding_factor > MAX_GRINDING_FACTOR {
+            return invalid("grinding factor cannot be greater than 32");
+        }
+        if !fri_folding_factor.is_power_of_two()
+            || !(FRI_MIN_FOLDING_FACTOR..=FRI_MAX_FOLDING_FACTOR).contains(&fri_folding_factor)
+        {
+            return invalid("FRI folding factor must be 2, 4, 8 or 16");
+        }
+        if !(fri_remainder_max_degree + 1).is_power_of_two()
+            || fri_remainder_max_degree > FRI_MAX_REMAINDER_DEGREE
+        {
+            return invalid("FRI remainder degree must be one less than a power of two, at most 255");
+        }
+        if !(1..=16).contains(&num_partitions) {
+            return invalid("number of partitions must be between 1 and 16");
+        }
+        if !(1..=255).contains(&hash_rate) {
+            return invalid("hash rate must be between 1 and 255");
+        }
+
         let result = ProofOptions::new(
-            source.read_u8()? as usize,
-            source.read_u8()? as usize,
-            source.read_u8()? as u32,
-            FieldExtension::read_from(source)?,
-            source.read_u8()? as usize,
-            source.read_u8()? as usize,
-            BatchingMethod::read_from(source)?,
-            BatchingMethod::read_from(source)?,
+            num_queries,
+            blowup_factor,
+            grinding_factor,
+            field_extension,
+            fri_folding_factor,
+            fri_remainder_max_degree,
+            batching_constraints,
+            batching_deep,
         );
-        Ok(result.with_partitions(source.read_u8()? as usize, source.read_u8()? as usize))
+        Ok(result.with_partitions(num_partitions, hash_rate))
     }
 }
 
